@@ -299,47 +299,155 @@ pub fn shim_path() -> PathBuf {
     PathBuf::from(base).join("target/fsshim.so")
 }
 
+// ---- fork server: one long-lived single-threaded process per harness thread; each request is
+// served by a forked child (no exec), which configures the shim through a CTL marker ----
+
+#[derive(Serialize, Deserialize)]
+struct Req {
+    root: String,
+    script: String,
+    results: String,
+    log: String,
+    crash_at: i64,
+    fail_at: i64,
+    errno: i32,
+    timeout_ms: u64,
+}
+
+pub fn forkserver_main() -> i32 {
+    use std::io::{BufRead, Write};
+    let stdin = std::io::stdin();
+    let mut line = String::new();
+    loop {
+        line.clear();
+        match stdin.lock().read_line(&mut line) {
+            Ok(0) | Err(_) => return 0,
+            Ok(_) => {}
+        }
+        let Ok(req) = serde_json::from_str::<Req>(line.trim()) else { return 5 };
+        let pid = unsafe { libc::fork() };
+        if pid < 0 {
+            return 6;
+        }
+        if pid == 0 {
+            mark(&format!("CTL {} {} {} {}\t{}", req.crash_at, req.fail_at, req.errno, req.root, req.log));
+            let args = vec!["--root".to_string(), req.root.clone(), "--script".to_string(), req.script.clone(), "--results".to_string(), req.results.clone()];
+            let code = worker_main(&args);
+            unsafe { libc::_exit(code) };
+        }
+        let start = Instant::now();
+        let mut status: libc::c_int = 0;
+        let reply = loop {
+            let r = unsafe { libc::waitpid(pid, &mut status, libc::WNOHANG) };
+            if r == pid {
+                if libc::WIFEXITED(status) {
+                    break format!("exit {}", libc::WEXITSTATUS(status));
+                }
+                break format!("signal {}", libc::WTERMSIG(status));
+            }
+            if r < 0 {
+                break "waiterr".to_string();
+            }
+            if start.elapsed() > Duration::from_millis(req.timeout_ms) {
+                unsafe {
+                    libc::kill(pid, libc::SIGKILL);
+                    libc::waitpid(pid, &mut status, 0);
+                }
+                break "timeout".to_string();
+            }
+            std::thread::sleep(Duration::from_micros(if start.elapsed() < Duration::from_millis(20) { 100 } else { 1000 }));
+        };
+        let mut out = std::io::stdout().lock();
+        if writeln!(out, "{reply}").is_err() || out.flush().is_err() {
+            return 0;
+        }
+    }
+}
+
+struct Server {
+    child: std::process::Child,
+    stdin: std::process::ChildStdin,
+    stdout: std::io::BufReader<std::process::ChildStdout>,
+}
+impl Drop for Server {
+    fn drop(&mut self) {
+        let _ = self.child.kill();
+        let _ = self.child.wait();
+    }
+}
+thread_local! {
+    static SERVER: std::cell::RefCell<Option<Server>> = const { std::cell::RefCell::new(None) };
+}
+
+fn spawn_server() -> Server {
+    let exe = std::env::current_exe().expect("harness: current_exe");
+    let mut cmd = std::process::Command::new(exe);
+    cmd.arg("forkserver");
+    cmd.env("LD_PRELOAD", shim_path());
+    cmd.env("RAYON_NUM_THREADS", "2");
+    cmd.env_remove("VSHIM_ROOT").env_remove("VSHIM_LOG").env_remove("VSHIM_CRASH_AT").env_remove("VSHIM_FAIL_AT").env_remove("VSHIM_FAIL_ERRNO");
+    cmd.stdin(std::process::Stdio::piped()).stdout(std::process::Stdio::piped()).stderr(std::process::Stdio::null());
+    let mut child = cmd.spawn().expect("harness: cannot spawn fork server");
+    let stdin = child.stdin.take().expect("harness: server stdin");
+    let stdout = std::io::BufReader::new(child.stdout.take().expect("harness: server stdout"));
+    Server { child, stdin, stdout }
+}
+
 /// Runs the worker on `root`; `work` is a scratch directory for script/results/trace files.
 pub fn run_worker(root: &Path, work: &Path, tag: &str, script: &Script, mode: ShimMode, timeout: Duration) -> RunOut {
+    use std::io::{BufRead, Write};
     let sp = work.join(format!("{tag}.script.json"));
     let rp = work.join(format!("{tag}.results.json"));
     let lp = work.join(format!("{tag}.trace.log"));
     let _ = std::fs::remove_file(&rp);
     let _ = std::fs::remove_file(&lp);
     std::fs::write(&sp, serde_json::to_vec(script).unwrap()).expect("harness: write script");
-    let exe = std::env::current_exe().expect("harness: current_exe");
-    let mut cmd = std::process::Command::new(exe);
-    cmd.arg("worker").arg("--root").arg(root).arg("--script").arg(&sp).arg("--results").arg(&rp);
-    cmd.env("LD_PRELOAD", shim_path());
-    cmd.env("VSHIM_ROOT", root);
-    cmd.env("VSHIM_LOG", &lp);
-    cmd.env_remove("VSHIM_CRASH_AT").env_remove("VSHIM_FAIL_AT").env_remove("VSHIM_FAIL_ERRNO");
-    match mode {
-        ShimMode::Trace => {}
-        ShimMode::CrashAt(k) => {
-            cmd.env("VSHIM_CRASH_AT", k.to_string());
-        }
-        ShimMode::FailAt { k, errno } => {
-            cmd.env("VSHIM_FAIL_AT", k.to_string());
-            cmd.env("VSHIM_FAIL_ERRNO", errno.to_string());
-        }
-    }
-    cmd.stdin(std::process::Stdio::null()).stdout(std::process::Stdio::null()).stderr(std::process::Stdio::null());
+    let (crash_at, fail_at, errno) = match mode {
+        ShimMode::Trace => (-1, -1, 5),
+        ShimMode::CrashAt(k) => (k as i64, -1, 5),
+        ShimMode::FailAt { k, errno } => (-1, k as i64, errno),
+    };
+    let req = Req {
+        root: root.to_string_lossy().to_string(),
+        script: sp.to_string_lossy().to_string(),
+        results: rp.to_string_lossy().to_string(),
+        log: lp.to_string_lossy().to_string(),
+        crash_at,
+        fail_at,
+        errno,
+        timeout_ms: timeout.as_millis() as u64,
+    };
     let start = Instant::now();
-    let mut child = cmd.spawn().expect("harness: cannot spawn worker");
-    let mut timed_out = false;
-    let code = loop {
-        match child.try_wait().expect("harness: try_wait") {
-            Some(st) => break st.code(),
-            None => {
-                if start.elapsed() > timeout {
-                    let _ = child.kill();
-                    let _ = child.wait();
-                    timed_out = true;
-                    break None;
-                }
-                std::thread::sleep(Duration::from_micros(500));
+    let reply = SERVER.with(|s| {
+        let mut g = s.borrow_mut();
+        for attempt in 0..2 {
+            if g.is_none() {
+                *g = Some(spawn_server());
             }
+            let srv = g.as_mut().unwrap();
+            let line = serde_json::to_string(&req).unwrap();
+            let mut reply = String::new();
+            let ok = writeln!(srv.stdin, "{line}").is_ok() && srv.stdin.flush().is_ok() && matches!(srv.stdout.read_line(&mut reply), Ok(n) if n > 0);
+            if ok {
+                return reply.trim().to_string();
+            }
+            *g = None;
+            if attempt == 1 {
+                break;
+            }
+        }
+        eprintln!("HARNESS-ERROR: fork server died");
+        crate::common::remove_own_scratch();
+        std::process::exit(2);
+    });
+    let (code, timed_out) = match reply.split_once(' ') {
+        Some(("exit", c)) => (c.parse::<i32>().ok(), false),
+        Some(("signal", _)) => (None, false),
+        _ if reply == "timeout" => (None, true),
+        _ => {
+            eprintln!("HARNESS-ERROR: fork server replied {reply:?}");
+            crate::common::remove_own_scratch();
+            std::process::exit(2);
         }
     };
     let trace_text = std::fs::read_to_string(&lp).unwrap_or_default();
